@@ -438,8 +438,13 @@ func (w *World) checkMerged(out segment.Segment, outCanon *Canon, ins []*SegH, d
 		if o.Count != total {
 			r.fail("C05.count", "merged", "merged Count=%d, survivors=%d", o.Count, total)
 		}
-		if total > 0 && !eqStr(o.Fields, e.Fields) {
-			r.fail("C05.fields", "merged", "merged Fields=%q, expected _id + sorted union %q", o.Fields, e.Fields)
+		// "Fields is the union of the inputs' fields": compared as a set (the order
+		// of the list is an implementation matter)
+		if total > 0 && !eqStr(uniqSorted(o.Fields), uniqSorted(e.Fields)) {
+			r.fail("C05.fields", "merged", "merged Fields=%q, expected the union of the inputs' fields %q", o.Fields, e.Fields)
+		}
+		if total > 0 && len(uniqSorted(o.Fields)) != len(o.Fields) {
+			r.fail("C05.fields", "merged", "merged Fields=%q lists a field twice", o.Fields)
 		}
 	}
 	if parts.Stored {
